@@ -6,6 +6,7 @@ import (
 	"go/token"
 	"go/types"
 	"math/big"
+	"os"
 	"sort"
 	"strings"
 
@@ -608,12 +609,32 @@ func wrapInt(t types.Type, raw string) string {
 	}
 	w, signed := intInfo(t)
 	m := pow2(w).String()
+	// the in-range case is spelled out: (ite in-range x (x mod 2^w)). Same value, but the
+	// solvers then decide the common no-overflow case by a comparison instead of reasoning about
+	// mod (observed: 0.25 s instead of an erratic 0.3-50 s on the pairwise loops of
+	// processTransactions)
+	v := raw
+	pre, post := "", ""
+	if strings.ContainsAny(raw, "( ") && wrapLet {
+		wrapCounter++
+		v = fmt.Sprintf("w!%d", wrapCounter)
+		pre, post = "(let (("+v+" "+raw+")) ", ")"
+	}
 	if !signed {
-		return "(mod " + raw + " " + m + ")"
+		if !wrapLet {
+			return "(mod " + raw + " " + m + ")"
+		}
+		return pre + "(ite (and (<= 0 " + v + ") (< " + v + " " + m + ")) " + v + " (mod " + v + " " + m + "))" + post
 	}
 	h := pow2(w - 1).String()
-	return "(- (mod (+ " + raw + " " + h + ") " + m + ") " + h + ")"
+	if !wrapLet {
+		return "(- (mod (+ " + raw + " " + h + ") " + m + ") " + h + ")"
+	}
+	return pre + "(ite (and (<= (- " + h + ") " + v + ") (< " + v + " " + h + ")) " + v + " (- (mod (+ " + v + " " + h + ") " + m + ") " + h + "))" + post
 }
+
+var wrapLet = os.Getenv("GOVC_NOWRAPLET") == ""
+var wrapCounter int
 
 func inRange(t types.Type, raw string) string {
 	lo, hi := intRange(t)
